@@ -1,6 +1,6 @@
 """C17 The pid file names the running master, exclusively and atomically.
 
-Engine E6 (vlib/e6_pidfile.py).  Three parts:
+Engine E6 (vlib/e6_pidfile.py), plus a live part on engine E4 (checks/c17_live.py).  Five parts:
 
 H  histories   2-3 real helper processes, each owning a real gunicorn.pidfile.Pidfile, execute
                sequences over {create, validate, rename, unlink} x instance, harness events {foreign
@@ -13,6 +13,17 @@ M  matrix      single-instance create / rename / unlink / validate over odd file
 K  crashes     create() / rename() / unlink() in a forked child whose os / tempfile / open are
                counting proxies; the child is killed (os._exit(137)) immediately before and
                immediately after EVERY call, plus short-write variants; the parent inspects the target.
+               "Restricted deployment" cells: the pid directory belongs to root (0755), the child drops
+               to uid nobody and owns only the pre-existing pid file (nothing can be created next to it).
+R  races       the operations of two or three helper processes run CONCURRENTLY: every call Pidfile makes
+               into os / tempfile / open is a scheduling point at which the helper parks until the
+               harness lets it perform that one call.  Schedules are enumerated depth-first (all of them
+               for the short scenarios, all with at most N preemptions for the longer ones) and sampled
+               with the seed; after every single call both paths are read and judged (see ASSUMPTIONS).
+L  live        real masters with a pid file (sync, gthread; thorough: gevent, eventlet) taken through
+               boot / TTOU / TTIN / HUP / max_requests recycling / worker abort on timeout / SIGKILL of a
+               worker / a second instance on the same file / TERM, and a restart over the stale file of
+               a SIGKILLed server (checks/c17_live.py).
 
 Tiers.  quick: every sequence up to length 3 (length 4 without model-no-ops for the plain two-instance
 layout) for 2 instances x {both on one path, second on "<path>.2"} x {root/root, root/nobody,
@@ -46,7 +57,10 @@ RULE = ("H: case = (instance count, path layout, uid assignment, pid order, oper
         "model-no-ops before the last operation, plus a seeded sample of lengths 4-8; non-trivial = the judged last "
         "operation is create/rename/unlink or a validate on an existing file. M: case = (odd content, operation, uid). "
         "K: case = (operation, pre-state of the target, relative/absolute name, call index k, before/after/short "
-        "write) enumerated completely from a counting run; distinct by case")
+        "write) enumerated completely from a counting run, incl. the restricted-deployment cells; "
+        "R: case = (scenario = operations of 2-3 instances + pre-state of the paths, schedule = which instance makes the "
+        "next call), all schedules up to the preemption bound + seeded samples; L: case = (worker class, event list); "
+        "distinct by case")
 
 SLOTS = ("A", "B", "C")
 PATHS = ("P", "Q")
@@ -80,8 +94,25 @@ ASSUMPTIONS = [
     "of the file object open() returned); os.getpid and os.path.* are passed through uncounted",
     "two instances that start on the same path with the same uid are interchangeable: only sequences that mention A "
     "before B are run, each with pid(A) < pid(B) and with pid(A) > pid(B) (helpers are re-forked until the order holds)",
-    "histories are sequential (one operation at a time, as the quantifier says); two masters racing through "
-    "validate()/rename() at the same instant are not explored",
+    "histories (part H) are sequential (one operation at a time, as the quantifier says). Part R interleaves the calls "
+    "of two or three instances; there only the clauses that speak about every instant are judged: a call may change a "
+    "path only to 'absent' (if the file held the caller's own pid, or held no live process and the caller is creating "
+    "there) or to the caller's own complete '<pid>\\n' (on the path it is creating); content naming another live "
+    "process may be replaced only if the path showed something else at some instant of the caller's operation (the "
+    "validate-then-rename window is inherent in the file protocol and not judged); at the end a file that names a "
+    "participant must name one whose create()/rename() returned, and if some instance returned from create() on a path "
+    "the file must name one of those; an instance that fails is accepted whenever a rival was starting on the same path "
+    "or the path named another live process at some instant",
+    "two starters that both pass validate() before either renames BOTH return from create(); the later rename wins and "
+    "the file names only that one. This is counted (info.race_two_instances_returned_from_create_on_one_path, "
+    "info.race_later_rename_won), not judged: the property's first clause is about a file that already names a live "
+    "process when the starter looks at it",
+    "scheduling points of part R are the calls Pidfile makes through os.*, tempfile.* and open() (same proxies as the "
+    "crash lab): tempfile.mkstemp is one step; the observer reads both paths after every step",
+    "restricted deployment (crash part): when the process may not create files next to the target, create() failing "
+    "with PermissionError and leaving the target untouched is accepted (counted in reach.crash_restricted_refused_eperm)",
+    "live part: between events the pid file may be absent for a moment (reload() unlinks and re-creates it); whenever it "
+    "is read it must be absent or hold exactly the master's pid, at the quiescent point after every event it must exist",
     "a deviation is reported only if it reproduces in two further executions of the same history with fresh processes "
     "(pid_max is 32768 here, so a 'dead' pid may be reused by an unrelated process); a non-reproducing one is counted in "
     "info.transient_deviation, a partly reproducing one makes the run inconclusive",
@@ -1230,9 +1261,11 @@ def exec_race(ctx, scn, chooser):
                 what = "%s.%s on %s %s; the path showed %s while it ran" % (
                     X, kind, FNAME[dst], "returned" if ok else "raised %s: %s" % (result[X].get("exc"), result[X].get("msg")),
                     " -> ".join(show(t) for t in _dedup(seen)))
+                rivals = [Z for Z in insts if Z != X and ops[Z][2] == dst]
                 if ok and only_live_others:
                     bad("race-create-accepted-live-owner", what)
-                elif not ok and never_live_other:
+                elif not ok and never_live_other and not rivals:
+                    # (with a rival starter on the same path the loser may fail in whatever way it likes)
                     bad("race-create-refused-takeover", what)
                 cnt("race_%s_%s" % (kind, "returned" if ok else "refused"))
                 if not ok:
